@@ -69,15 +69,35 @@ def idle_flag(run, lc):
         c = info["cls"]
         if c and c[:2] == ("hook", "on_run") and len(c) == 4 and c[3] == ("payload", "Ok") and info["kind"] == "value":
             false_arm, true_arm = info["arms"].get("false"), info["arms"].get("true")
-    if not run.require(false_arm is not None and true_arm is not None and false_arm != true_arm, "O8.3", "on_run-bool-arms",
-                       "cannot find distinct Ok(true)/Ok(false) arms of the on_run outcome", "Ok(true) and Ok(false) arms identified"):
+    merged = False
+    if false_arm is None and true_arm is None:
+        # `Ok(keep_idle) => idle_enabled = keep_idle`: the flag takes the returned bool itself (the branch only runs while the
+        # flag is true, so Ok(true) leaves it true and Ok(false) clears it - the same two cases, decided by the exploration)
+        ok_arm = None
+        for bb, info in lc.switch_info.items():
+            c = info["cls"]
+            if c and c[:2] == ("hook", "on_run") and len(c) == 3 and info["kind"] == "discr":
+                ok_arm = info["arms"].get("Ok")
+        pay = []
+        for bb, v, st in assigns:
+            if bb in loop and st is not None and "use" in st["rv"]:
+                c = lc.classify(lc.tr.norm(lc.tr.operand(st["rv"]["use"])))
+                if c and c[:2] == ("hook", "on_run") and len(c) == 4 and c[3] == ("payload", "Ok"):
+                    pay.append(bb)
+        merged = ok_arm is not None and len(pay) >= 1 and len(pay) == len(inloop) and all(cfg.dominates(ok_arm, bb) or bb == ok_arm for bb in pay)
+    if not run.require(merged or (false_arm is not None and true_arm is not None and false_arm != true_arm), "O8.3", "on_run-bool-arms",
+                       "cannot find distinct Ok(true)/Ok(false) arms of the on_run outcome (nor `flag = <returned bool>` under the Ok arm)", "Ok(true) and Ok(false) cases identified"):
         return
-    bad = [(lc.loc(bb), v) for bb, v in inloop if v != 0 or not (cfg.dominates(false_arm, bb) or bb == false_arm)]
-    run.require(not bad, "O8.3", "idle-flag-only-cleared-on-ok-false",
-                "the idle flag is assigned inside the loop other than `false` under Ok(false): %s" % bad,
-                "inside the loop the flag is only assigned `false`, under the Ok(false) arm (%d site(s))" % len(inloop))
-    run.require(len(inloop) >= 1, "O8.3", "ok-false-clears-flag", "Ok(false) does not clear the idle flag: on_run would be polled again",
-                "Ok(false) arm clears the flag", loc=lc.loc(false_arm))
+    if merged:
+        run.ok("O8.3", "idle-flag-only-cleared-on-ok-false", "inside the loop the flag is only assigned the bool returned by on_run, under its Ok arm (%d site(s))" % len(inloop))
+        run.ok("O8.3", "ok-false-clears-flag", "Ok(false) stores false into the flag")
+    else:
+        bad = [(lc.loc(bb), v) for bb, v in inloop if v != 0 or not (cfg.dominates(false_arm, bb) or bb == false_arm)]
+        run.require(not bad, "O8.3", "idle-flag-only-cleared-on-ok-false",
+                    "the idle flag is assigned inside the loop other than `false` under Ok(false): %s" % bad,
+                    "inside the loop the flag is only assigned `false`, under the Ok(false) arm (%d site(s))" % len(inloop))
+        run.require(len(inloop) >= 1, "O8.3", "ok-false-clears-flag", "Ok(false) does not clear the idle flag: on_run would be polled again",
+                    "Ok(false) arm clears the flag", loc=lc.loc(false_arm))
     # on every path through the Ok(false) arm back to the select the flag is false (exploration)
     ai = lc.explore()
     vals = set()
